@@ -42,14 +42,14 @@ def fp_code(fp, depth=0):
 
 
 def _ctor(cname, vals, layout=""):
-    if cname in ("Word", "Regex"):
+    if cname in ("Word", "Regex", "Term"):
         v = vals["value"]
-        return "T.%s(%s%s)" % (cname, v, layout) if cname == "Word" else "T.Regex('/' + %s.strip('/') + '/'%s)" % (v, layout)
+        return "T.%s(%s%s)" % (cname, v, layout) if cname != "Regex" else "T.Regex('/' + %s.strip('/') + '/'%s)" % (v, layout)
     if cname == "Phrase":
         return "T.Phrase('\"' + %s.strip('\"') + '\"'%s)" % (vals["value"], layout)
     if cname == "SearchField":
         return "T.SearchField(%s, %s%s)" % (vals["name"], vals["expr"], layout)
-    if cname in ("Group", "FieldGroup"):
+    if cname in ("Group", "FieldGroup", "BaseGroup"):
         return "T.%s(%s%s)" % (cname, vals["expr"], layout)
     if cname == "Range":
         return "T.Range(%s, %s, %s, %s%s)" % (vals["low"], vals["high"], vals["include_low"], vals["include_high"], layout)
@@ -132,7 +132,7 @@ def _lay(n, pos, size, head, tail):
 
 def fingerprint(n):
     """independent structural fingerprint (C09 statement): type, meaning-bearing attributes, children in order"""
-    attrs = {"Word": ["value"], "Phrase": ["value"], "Regex": ["value"], "SearchField": ["name"],
+    attrs = {"Word": ["value"], "Phrase": ["value"], "Regex": ["value"], "Term": ["value"], "SearchField": ["name"],
              "Range": ["include_low", "include_high"], "Fuzzy": ["degree"], "Proximity": ["degree"],
              "Boost": ["force"], "From": ["include"], "To": ["include"]}.get(type(n).__name__, [])
     return (type(n).__name__, tuple((a, getattr(n, a)) for a in attrs), tuple(fingerprint(c) for c in n.children))
